@@ -117,6 +117,16 @@ class ListLits(solvegen.Lits):
                 c = s[1]
                 parts.append("(idx_if (idx_cond I%s %s %s) %s %s)" % (c[1], self.cur[1], cz(c[3][1]), self.flat(s[2]),
                                                                      self.flat(s[4]) if s[4] is not None else "[]"))
+            elif s[0] == "dyn":
+                # a reference to a dynamic block as a statement of its own: the block's statements in place (Dyn.dyn_stmt),
+                # foreach / aggregates expanded over the list as it is at this call
+                flush()
+                cname = self.cls_of_prefix()
+                b = next(b for b in all_blocks(self.sc, cname) if b["name"] == s[2] and b.get("dynamic"))
+                parts.append(self.flat(b["stmts"]))
+            elif s[0] == "unique_vec":
+                flush()
+                parts.append("(unique_vec_of %s)" % clist([self.elem_ids(x) for x in s[1]]))
             elif s[0] == "unique":
                 groups = []
                 for x in s[1]:
@@ -154,7 +164,8 @@ class ListLits(solvegen.Lits):
                 counter[0] += 1
                 lk = ["(WLeaf %s %s %d%%nat)" % (cbool(bool(f.get("rand"))), cbool(bool(f.get("rand"))), self.ids[p + (i,)])
                       for i in range(self.list_len(p))]
-                lk.append("(WLeaf %s %s %d%%nat)" % (cbool(bool(f.get("randsz"))), cbool(bool(f.get("randsz"))), self.ids[p + ("size",)]))
+                szr = bool(f.get("randsz")) and not getattr(self, "size_const", False)     # size_const: "what if the size were s"
+                lk.append("(WLeaf %s %s %d%%nat)" % (cbool(szr), cbool(szr), self.ids[p + ("size",)]))
                 kids.append("(WObj %s %s %d%%nat [] %s)" % (cbool(bool(f.get("rand"))), cbool(bool(f.get("rand"))), 1000 + lo, clist(lk)))
         blocks = []
         for b in all_blocks(self.sc, cname):
@@ -166,13 +177,41 @@ class ListLits(solvegen.Lits):
 
 
 class ListGen(object):
-    def __init__(self, rnd, randsz=False, softs=False):
+    def __init__(self, rnd, randsz=False, softs=False, cmodes=False, dyn=False):
         self.rnd = rnd
         self.randsz = randsz
+        self.dyn = dyn            # the foreach statements live in a dynamic block referenced from inline blocks (C06)
+        self.cmodes = cmodes      # constraint_mode histories on the block that holds the foreach / aggregate statements (C07)
         self.softs = softs        # soft constraints on scalars and on constant-index elements (C05)
+
+    def exhaust_scenario(self):
+        """unique over a random-size list (and a scalar) whose members use up every value of the element type, the size pinned
+        from below while its domain reaches further up: the elements the library creates beyond the solved size must not count"""
+        rnd = self.rnd
+        w = rnd.choice([1, 2, 2])
+        with_scalar = rnd.random() < 0.6
+        n = (1 << w) - (1 if with_scalar else 0) - rnd.choice([0, 0, 0, 1])
+        n = max(1, n)
+        fields = [{"name": "f0", "kind": "scalar", "w": w, "sg": False, "rand": True},
+                  {"name": "l0", "kind": "list", "elem": {"kind": "scalar", "w": w, "sg": False}, "rand": True, "randsz": True, "size": 0}]
+        items = [["listref", ["l0"]]] + ([["f", ["f0"]]] if with_scalar else [])
+        if rnd.random() < 0.5:
+            items.reverse()
+        stmts = [["expr", ["in", ["size", ["l0"]], [[["lit", n], ["lit", n + rnd.randint(1, 2)]]]]], ["unique", items]]
+        if rnd.random() < 0.4:
+            stmts.append(["expr", ["bin", "Eq", ["size", ["l0"]], ["lit", n]]])
+        rnd.shuffle(stmts)
+        cls = {"name": "K0", "fields": fields, "blocks": [{"name": "c0", "stmts": stmts}], "pre_randomize": [], "post_randomize": []}
+        ops = [{"op": "new", "var": "o", "cls": "K0"}]
+        for _ in range(rnd.randint(0, 2)):
+            ops.append({"op": "l_append", "var": "o", "path": ["l0"], "value": rnd.randint(0, (1 << w) - 1)})
+        ops += [{"op": "randomize", "var": "o", "inline": None}, {"op": "randomize", "var": "o", "inline": None}]
+        return {"enums": {}, "classes": [cls], "root_cls": "K0", "ops": ops}
 
     def scenario(self):
         rnd = self.rnd
+        if self.randsz and rnd.random() < 0.3:
+            return self.exhaust_scenario()
         fields = []
         nsc = rnd.randint(1, 2)
         budget = 11
@@ -245,6 +284,11 @@ class ListGen(object):
                 stmts.append(keep(lambda: self.list_stmt(lf)))
         for _ in range(rnd.randint(0, 2)):
             stmts.append(keep(self.scalar_stmt))
+        # unique_vec over lists of one length (fixed-size, at least one element)
+        same = [x for x in lists if not x["randsz"] and x["size"] >= 1]
+        if len(same) >= 2 and same[0]["size"] == same[1]["size"] and rnd.random() < 0.7:
+            self.vec_lists = {same[0]["name"], same[1]["name"]}
+            stmts.append(keep(lambda: ["unique_vec", [[same[0]["name"]], [same[1]["name"]]]]))
         # elements named by a constant index outside any foreach (fixed-size lists only; such a list is never cleared below):
         # an element against a literal, a scalar or another element, in both operand orders
         self.indexed = set()
@@ -266,7 +310,22 @@ class ListGen(object):
                     f = rnd.choice(self.scalars)
                     target, (w, sg) = ["f", [f["name"]]], (f["w"], f["sg"])
                 stmts.insert(rnd.randint(0, len(stmts)), ["soft", ["bin", rnd.choice(["Eq", "Eq", "Lt", "Gt", "Ne"]), target, self.lit(w, sg)]])
-        cls = {"name": "K0", "fields": fields, "blocks": [{"name": "c0", "stmts": stmts}], "pre_randomize": self.pre, "post_randomize": []}
+        blocks = [{"name": "c0", "stmts": stmts}]
+        toggled = None
+        if self.cmodes and not any(x["randsz"] for x in lists):
+            # the foreach / aggregate statements in a block of their own that is switched off and on between the calls
+            mov = [st for st in stmts if st[0] == "foreach" or (st[0] == "expr" and ("'sum'" in repr(st) or "'product'" in repr(st)))]
+            if mov:
+                blocks = [{"name": "c0", "stmts": [st for st in stmts if st not in mov]}, {"name": "c1", "stmts": mov}]
+                toggled = "c1"
+        self.dyn_block = None
+        if self.dyn and not any(x["randsz"] for x in lists):
+            # the foreach statements in a dynamic block that calls refer to from their inline block
+            mov = [st for st in stmts if st[0] == "foreach"]
+            if mov:
+                blocks = [{"name": "c0", "stmts": [st for st in stmts if st not in mov]}, {"name": "dz", "dynamic": True, "stmts": mov}]
+                self.dyn_block = "dz"
+        cls = {"name": "K0", "fields": fields, "blocks": blocks, "pre_randomize": self.pre, "post_randomize": []}
         ops = [{"op": "new", "var": "o", "cls": "K0"}]
         cur = {lf["name"]: lf["size"] for lf in lists}          # current lengths (the declaration keeps the initial size)
         for lf in lists:
@@ -274,10 +333,17 @@ class ListGen(object):
                 for i in range(lf["size"]):
                     ops.append({"op": "l_set", "var": "o", "path": [lf["name"]], "index": i, "value": self.wit[lf["name"]][i]})
         # a list used through sum / product that is emptied after a call, while expressions cached for it may still exist
-        aggregated = [x for x in lists if not x["randsz"] and x["name"] not in self.indexed and
+        vec = getattr(self, "vec_lists", set())          # lists under unique_vec keep one length (else the library refuses the call)
+        aggregated = [x for x in lists if not x["randsz"] and x["name"] not in self.indexed and x["name"] not in vec and
                       any(tag in repr(stmts) for tag in ("['sum', ['%s']]" % x["name"], "['product', ['%s']]" % x["name"]))]
         clear_at = rnd.choice([1, 2]) if aggregated and rnd.random() < 0.5 else None
-        for rnd_no in range(3):
+        for rnd_no in range(4 if toggled else 3):
+            if toggled:
+                # off for the first rounds (the lists grow meanwhile), then on again
+                if rnd_no == 0 and rnd.random() < 0.8:
+                    ops.append({"op": "cmode", "var": "o", "path": [], "block": toggled, "on": False})
+                elif rnd_no in (2, 3) and rnd.random() < 0.7:
+                    ops.append({"op": "cmode", "var": "o", "path": [], "block": toggled, "on": rnd_no == 2 or rnd.random() < 0.5})
             if rnd_no == clear_at:
                 x = rnd.choice(aggregated)
                 ops.append({"op": "l_clear", "var": "o", "path": [x["name"]]})
@@ -286,7 +352,14 @@ class ListGen(object):
                 ops.append({"op": "set", "var": "o", "path": [self.reset_field], "value": rnd.choice([0, 0, 1])})
             lf = rnd.choice(lists)
             r = rnd.random()
-            if r < 0.35 and not lf["randsz"] and cur[lf["name"]] < 4:
+            if lf["name"] in vec:
+                # both vectors grow together
+                if r < 0.25 and all(cur[n] < 3 for n in vec):
+                    for n in sorted(vec):
+                        d = next(x for x in lists if x["name"] == n)
+                        ops.append({"op": "l_append", "var": "o", "path": [n], "value": rnd.randint(*type_range(d["elem"]["w"], d["elem"]["sg"]))})
+                        cur[n] += 1
+            elif r < (0.7 if toggled or self.dyn_block else 0.35) and not lf["randsz"] and cur[lf["name"]] < 4:
                 lo, hi = type_range(lf["elem"]["w"], lf["elem"]["sg"])
                 ops.append({"op": "l_append", "var": "o", "path": [lf["name"]], "value": rnd.randint(lo - 2, hi + 2)})
                 cur[lf["name"]] += 1
@@ -296,7 +369,7 @@ class ListGen(object):
             elif r < 0.6 and lf["randsz"]:
                 ops.append({"op": "l_append", "var": "o", "path": [lf["name"]], "value": rnd.randint(0, 3)})
             normal_at = len(ops)
-            ops.append({"op": "randomize", "var": "o", "inline": None})
+            ops.append({"op": "randomize", "var": "o", "inline": [["dyn", [], self.dyn_block]] if self.dyn_block and rnd.random() < 0.8 else None})
             # a free-standing call over one random scalar whose inline block refers to an element by constant index (often the
             # one appended last): the element is not passed, so it is a constant of the call and keeps its value
             rs = [f for f in self.scalars if f["rand"]]
@@ -355,6 +428,9 @@ class ListGen(object):
             if st[0] == "expr":
                 v = ev(st[1])
                 return v is None or v != 0
+            if st[0] == "unique_vec":
+                vs = [tuple(W[x[0]]) for x in st[1]]
+                return len(set(vs)) == len(vs)
             if st[0] == "unique":
                 vals = []
                 for x in st[1]:
@@ -441,7 +517,9 @@ class ListGen(object):
             return ["foreach", [name], body]
         if r < 0.50:
             return ["expr", ["bin", rnd.choice(["Eq", "Le", "Gt", "Lt"]), ["sum", [name]], ["lit", rnd.randint(0, 3 * (1 << w))]]]
-        if r < 0.54 and lf["size"] <= 3:
+        if r < 0.54 and lf["size"] <= 3 and not lf["randsz"]:
+            # (not for random-size lists: the library fixes "the product of no elements" - 0 - by the length the list has when
+            # the expression is built, 1 when it shrinks to empty during the solve; the property does not say which)
             # the product (0 for an empty list), against a literal near a feasible value
             return ["expr", ["bin", rnd.choice(["Eq", "Le", "Ge", "Ne", "Lt"]), ["product", [name]], ["lit", rnd.choice([0, 0, 1, 2, rnd.randint(-8, 30)])]]]
         if r < 0.58:
@@ -452,6 +530,11 @@ class ListGen(object):
             items = [["listref", [name]]]
             if rnd.random() < 0.5:
                 items.append(["f", [rnd.choice(self.scalars)["name"]]])
+            if rnd.random() < 0.5:
+                items.reverse()          # the list is not always the first argument
+            others = [x for x in self.lists if x["name"] != name]
+            if others and rnd.random() < 0.3:
+                items.insert(rnd.randint(0, len(items)), ["listref", [rnd.choice(others)["name"]]])
             return ["unique", items]
         if r < 0.88:
             return ["expr", ["bin", rnd.choice(["Eq", "Ge", "Lt"]), ["size", [name]], ["lit", rnd.randint(0, 3)]]]
